@@ -176,16 +176,25 @@ CHECKS["C06"] = dict(
    design_ref="DESIGN.md §3 C06",
    note="Additional assumptions: std transfer functions for ~60 core/alloc functions; associated constants ELEMENT_BYTES <= 64, EXTENSION_DEGREE <= 3; "
         "untainted (AIR-defined) operands below 2^32 when deciding whether an overflow is attacker-driven; contract for Context::num_modulus_bits.")
+CHECKS["C16"] = dict(
+   technique="static analysis: symbolic expression extraction from the MIR of the divisor constructors with private helpers inlined (shape of the exemption range, degree/exponent/domain of the assertion divisor), path-wise evaluation of get_num_steps on a finite model of all assertion kinds, data-flow dependence of the divisor evaluator",
+   text="The property as a whole is number theory over lengths, strides and steps and is NOT decided. Decided are four structural necessary "
+        "conditions, each of which, when broken, moves a divisor's zero set off the intended steps for a whole class of inputs while prover and "
+        "verifier (sharing the functions) stay in agreement: (EXEMPT) ConstraintDivisor::from_transition(n, k) exempts exactly the points g^s, "
+        "n-k <= s < n (decided for the mapped-range and push-loop forms; a shifted window or a running point multiplied by itself is reported; "
+        "other forms are reported as not decided); (ADIV) from_assertion builds x^k - g^(k*first_step) with k = get_num_steps, g the generator of "
+        "the trace domain, the constant 1 only behind first_step == 0, and no exemption points; (NSTEPS) get_num_steps returns 1 / n/stride / "
+        "the number of values for single / periodic / sequence assertions, whatever the order and spelling of its tests; (EVAL) the divisor's "
+        "evaluate_at depends on the degree and constant of every numerator term, on every exemption point and on x. NOT decided: the zero sets "
+        "as such, the interpolated value polynomials and their domain shift, the overlap predicate, the bounds on the number of exemptions, "
+        "refusal of ill-formed assertions.",
+   design_ref="DESIGN.md §4 (C16), §9.8")
 NA = {
  "C09": "Static analysis does not apply (DESIGN.md §4). Every clause is an equality between vectors of field elements computed by loops whose trip counts, "
         "strides and index permutations are runtime sizes (butterfly indices, bit-reversal, chunked coset offsets, segment transposition). Nothing about the "
         "behaviour is visible in the shape of the code; the only abstract domains in reach (intervals, order facts, polynomial normal forms of loop-free "
         "code) cannot relate butterfly index arithmetic to polynomial evaluation, and unrolling the loops for concrete sizes would be running the code, which "
         "this technique family excludes. No structural clause is a necessary condition here that the 220 tests do not already exercise.",
- "C16": "Static analysis does not apply (DESIGN.md §4). The zero set of (x^n - 1)/prod(x - g^s), of x^k - offset, the shifted value polynomial and the overlap "
-        "predicate are number-theoretic functions of (length, exemptions, stride, first step): a wrong bound is structurally identical to the right one "
-        "(seed C02-B, a dropped exemption point, is missed by every structural rule for exactly this reason). The one structural clause, 'ill-formed "
-        "assertions are refused', is a set of assert! guards already pinned by should_panic tests.",
  "C20": "Static analysis does not apply (DESIGN.md §4). Algebraic identities (q*d + r = p, interpolation inverts evaluation, x*inv(x) = 1 element-wise) over "
         "vectors of arbitrary length computed by data-dependent loops; the symbolic polynomial engine (E5) handles loop-free code only and the interval engine "
         "says nothing about field values. No structural necessary condition beyond what unit tests already cover was identified.",
